@@ -17,7 +17,60 @@
     /// fields the buffer layer never touches
     pub closed spec fn frame(&self, o: &Self) -> bool {
         self.allowed_errors == o.allowed_errors && self.max_allowed_tag_size == o.max_allowed_tag_size && self.tag_stack == o.tag_stack && self.has_determined_doc_path == o.has_determined_doc_path
+        && self.emission_queue == o.emission_queue && self.tag_ids_to_buffer == o.tag_ids_to_buffer && self.emit_master_end_when_eof == o.emit_master_end_when_eof && self.last_emitted_tag_offset == o.last_emitted_tag_offset
     }
+    /// what the header / tag layer leaves alone of the upper layer: the emission queue, the buffered-id set and the EOF switch
+    /// never change; the stack of open masters changes only when the first element of the stream fixes the position in the
+    /// document (implied ancestors are seeded)
+    pub closed spec fn up_frame(&self, o: &Self) -> bool {
+        &&& self.emission_queue == o.emission_queue && self.tag_ids_to_buffer == o.tag_ids_to_buffer && self.emit_master_end_when_eof == o.emit_master_end_when_eof && self.last_emitted_tag_offset == o.last_emitted_tag_offset
+        &&& (self.tag_stack@ == o.tag_stack@ || !o.has_determined_doc_path)
+    }
+    /// everything but the stack of open masters and the emission queue is the same
+    pub closed spec fn lower_eq(&self, o: &Self) -> bool {
+        &&& self.source == o.source && self.buffer == o.buffer && self.buffer_offset == o.buffer_offset && self.buffered_byte_length == o.buffered_byte_length
+        &&& self.internal_buffer_position == o.internal_buffer_position && self.allowed_errors == o.allowed_errors && self.max_allowed_tag_size == o.max_allowed_tag_size
+        &&& self.has_determined_doc_path == o.has_determined_doc_path && self.tag_ids_to_buffer == o.tag_ids_to_buffer && self.emit_master_end_when_eof == o.emit_master_end_when_eof
+        &&& self.last_emitted_tag_offset == o.last_emitted_tag_offset
+    }
+    pub closed spec fn up_stack(&self) -> Seq<ProcessingTag<TSpec>> { self.tag_stack@ }
+    pub closed spec fn up_queue(&self) -> Seq<Item<TSpec>> { self.emission_queue@ }
+    pub closed spec fn up_eof_close(&self) -> bool { self.emit_master_end_when_eof }
+    pub closed spec fn up_buffered(&self, id: u64) -> bool { self.tag_ids_to_buffer@.contains(id) }
+    pub closed spec fn up_positioned(&self) -> bool { self.has_determined_doc_path }
+    /// C06 / C07 / C12 / C03, per step: what one read_next does to the stack of open masters and the emission queue.
+    /// `r` is what the tag layer returned (None = end of input); `s_read` the stack the tag layer left (the stack after
+    /// closing by position, unless the very first element seeded the implied ancestors).
+    pub closed spec fn next_post(&self, o: &Self, r: Option<Result<ProcessingTag<TSpec>, TagIteratorError>>, s_read: Seq<ProcessingTag<TSpec>>) -> bool {
+        let i0 = sp_first_ended_from(o.up_stack(), o.cursor(), 0);
+        let s1 = o.up_stack().subrange(0, i0);
+        let q1 = o.up_queue() + sp_ends_rev(o.up_stack().subrange(i0, o.up_stack().len() as int));
+        &&& (s_read == s1 || !o.up_positioned())
+        &&& match r {
+                None => {
+                    &&& self.cursor() == o.cursor() && self.future() == o.future() && self.avail().len() == 0 && self.zr() > o.zr()
+                    &&& if o.up_eof_close() { self.up_stack().len() == 0 && self.up_queue() =~= q1 + sp_ends_rev(s_read) } else { self.up_stack() =~= s_read && self.up_queue() =~= q1 }
+                },
+                Some(Err(e)) => self.up_stack() =~= s_read && self.up_queue() =~= q1.push(Err(e)) && (e is ReadError || self.tag_post(o, Err(e))),
+                Some(Ok(pt)) => {
+                    let ol = sp_open_len::<TSpec>(pt.tag.sp_id(), sp_doc_path(s_read));
+                    let s2 = s_read.subrange(0, ol);
+                    let q2 = q1 + sp_ends_rev(s_read.subrange(ol, s_read.len() as int));
+                    &&& 0 <= ol <= s_read.len()
+                    &&& if pt.tag.sp_master() matches Some(Master::Start) {
+                            // a buffered master is handed to buffer_master (bounded layer, C08); otherwise:
+                            !o.up_buffered(pt.tag.sp_id()) ==> {
+                                &&& self.tag_post(o, Ok(pt))
+                                &&& self.up_stack() =~= s2.push(ProcessingTag { tag: TSpec::sp_mk_end(pt.tag.sp_id())->Some_0, size: pt.size, tag_start: pt.tag_start, data_start: pt.data_start })
+                                &&& self.up_queue() =~= q2.push(Ok((pt.tag, pt.tag_start)))
+                            }
+                        } else {
+                            self.tag_post(o, Ok(pt)) && self.up_stack() =~= s2 && self.up_queue() =~= q2.push(Ok((pt.tag, pt.tag_start)))
+                        }
+                },
+            }
+    }
+
     /// configuration (tolerance mask, size limit)
     pub closed spec fn cfg(&self) -> (u8, Option<usize>) { (self.allowed_errors, self.max_allowed_tag_size) }
     /// number of source reads that returned Ok(0) so far
